@@ -10,6 +10,7 @@ import (
 	"os"
 	"os/exec"
 	"runtime"
+	"runtime/debug"
 	"strings"
 	"time"
 
@@ -82,6 +83,13 @@ func fzRun(f func() error) fzres {
 // fzOne runs one entry point on the bytes; returns the output part of the observation line.
 func fzOne(entry string, data []byte) string {
 	nev := 0
+	if strings.HasPrefix(entry, "xr") || strings.HasPrefix(entry, "xm") {
+		// a LONG stream given by a short description: prefix ++ unit x count ++ suffix (see fzRep). Run in a child
+		// process only (fzx): the goroutine stack is capped (4 MB), so that stack use growing with the NUMBER of frames the
+		// peer sends ends in the runtime's fatal "stack overflow" within a stream of a few megabytes
+		data = fzExpand(data)
+		debug.SetMaxStack(4 << 20)
+	}
 	r := fzRun(func() error {
 		switch entry {
 		case "rh":
@@ -89,6 +97,15 @@ func fzOne(entry string, data []byte) string {
 			return err
 		case "rf":
 			_, err := ws.ReadFrame(bytes.NewReader(data))
+			return err
+		case "xr1", "xr2":
+			cfg := rcfg{state: entry[2] - '0', chk: true, cb: 1}
+			evs, _, err := driveReader(bytes.NewReader(data), cfg, []int{512}, 2*len(data)+100)
+			nev = len(evs)
+			return err
+		case "xm1", "xm2":
+			ms, err := wsutil.ReadMessage(bytes.NewReader(data), ws.State(entry[2]-'0'), nil)
+			nev = len(ms)
 			return err
 		case "rd1", "rd2", "rd1m", "rd2m":
 			cfg := rcfg{state: entry[2] - '0', chk: true, cb: 1}
@@ -196,7 +213,7 @@ func fzOne(entry string, data []byte) string {
 	if entry == "df" {
 		limit = 64 << 20 // a deflate stream may legitimately expand (bounded by its own length x 1032)
 	}
-	if r.alloc > limit {
+	if r.alloc > limit && !strings.HasPrefix(entry, "x") { // long-stream entries: the harness's own per-frame bookkeeping dominates
 		over = 1
 	}
 	return fmt.Sprintf("%s %s %d %d", r.class, r.detail, over, nev)
@@ -389,4 +406,40 @@ func runC15(c *ctx) {
 		}
 	}
 	_ = io.EOF
+}
+
+// fzRep describes the stream prefix ++ unit x count ++ suffix in a few bytes; fzExpand builds it
+func fzRep(prefix, unit []byte, count int, suffix []byte) []byte {
+	var b []byte
+	b = append(b, byte(count>>24), byte(count>>16), byte(count>>8), byte(count))
+	for _, p := range [][]byte{prefix, unit, suffix} {
+		b = append(b, byte(len(p)>>8), byte(len(p)))
+		b = append(b, p...)
+	}
+	return b
+}
+
+func fzExpand(d []byte) []byte {
+	if len(d) < 4 {
+		return nil
+	}
+	count := int(d[0])<<24 | int(d[1])<<16 | int(d[2])<<8 | int(d[3])
+	d = d[4:]
+	var parts [3][]byte
+	for i := range parts {
+		if len(d) < 2 {
+			return nil
+		}
+		n := int(d[0])<<8 | int(d[1])
+		if len(d) < 2+n {
+			return nil
+		}
+		parts[i], d = d[2:2+n], d[2+n:]
+	}
+	out := make([]byte, 0, len(parts[0])+count*len(parts[1])+len(parts[2]))
+	out = append(out, parts[0]...)
+	for i := 0; i < count; i++ {
+		out = append(out, parts[1]...)
+	}
+	return append(out, parts[2]...)
 }
